@@ -36,11 +36,12 @@ EvSrc(e) == CASE e.a = "call"   -> "x" \o Open(e.k) \o e.l \o "]"
               [] OTHER          -> "[Not cited][#" \o e.l \o "]"
 Defs(d) == (IF d.nested THEN "[^a]: note a calls z[^c] inside\n\n" ELSE "[^a]: note a\n\n") \o "[^b]: note b\n\n[^c]: note c\n\n[#a]: cite a\n\n[#b]: cite b\n\n[#c]: cite c\n\n[?a]: gloss a\n\n[?b]: gloss b\n\n[?c]: gloss c\n\n"
 Wrap(d, s) == CASE d.nest = "list" -> "* " \o s \o "\n\n" [] d.nest = "quote" -> "> " \o s \o "\n\n" [] OTHER -> s \o "\n\n"
+CapSp(d) == d.capsp /\ d.table           \* the caption's label is written after a space
 \* base = 2: the document starts with 'Base Header Level: 2' (ids, numbering and links do not depend on heading levels)
 Src(d) == (IF d.base > 0 THEN "Base Header Level: " \o ToString(d.base) \o "\n\n" ELSE "") \o (IF d.toc THEN (IF d.tocr THEN "{{TOC:2-3}}\n\n" ELSE "{{TOC}}\n\n") ELSE "")
-          \o Wrap(d, Cat([i \in 1 .. Len(d.ev) |-> EvSrc(d.ev[i]) \o " "]) \o Cat([i \in 1 .. Len(d.heads) |-> IF d.heads[i].ref THEN RefSrc(d.heads[i]) \o " " ELSE ""]) \o (IF d.table THEN "[tbl]" ELSE "") \o "end")
+          \o Wrap(d, Cat([i \in 1 .. Len(d.ev) |-> EvSrc(d.ev[i]) \o " "]) \o Cat([i \in 1 .. Len(d.heads) |-> IF d.heads[i].ref THEN RefSrc(d.heads[i]) \o " " ELSE ""]) \o (IF d.table THEN (IF CapSp(d) THEN "[tbl] [Cap][] " ELSE "[tbl]") ELSE "") \o "end")
           \o Cat([i \in 1 .. Len(d.heads) |-> HeadSrc(d.heads[i], IF i = 1 THEN 1 ELSE 2) \o "text\n\n"])
-          \o (IF d.table THEN "| a |\n|---|\n| b |\n[Cap][tbl]\n\n" ELSE "")
+          \o (IF d.table THEN "| a |\n|---|\n| b |\n" \o (IF CapSp(d) THEN "[Cap] [tbl]" ELSE "[Cap][tbl]") \o "\n\n" ELSE "")        \* spelled with a space the second bracket is not the table's label: the id comes from the caption
           \o Defs(d)
 
 \* a call inside the text of footnote a happens when that entry is printed, i.e. after all calls of the body
@@ -65,15 +66,16 @@ HeadIds(d) == [i \in 1 .. Len(d.heads) |-> HeadId(d.heads[i])]
 LevelOf(d, i) == CASE d.heads[i].style = "setext1" -> 1 [] d.heads[i].style = "setext2" -> 2 [] OTHER -> (IF i = 1 THEN 1 ELSE 2)
 TocIdx(d) == IF d.tocr THEN {i \in 1 .. Len(d.heads) : LevelOf(d, i) \in 2 .. 3} ELSE 1 .. Len(d.heads)
 TocOf(d, ids) == [n \in 1 .. Cardinality(TocIdx(d)) |-> ids[CHOOSE x \in TocIdx(d) : Cardinality({y \in TocIdx(d) : y < x}) = n - 1]]
+TableId(d) == IF CapSp(d) THEN "cap" ELSE "tbl"
 Xrefs(d) == LET idx == {i \in 1 .. Len(d.heads) : d.heads[i].ref} IN
-            [n \in 1 .. Cardinality(idx) |-> HeadId(d.heads[CHOOSE x \in idx : Cardinality({y \in idx : y < x}) = n - 1])] \o (IF d.table THEN <<"tbl">> ELSE <<>>)
+            [n \in 1 .. Cardinality(idx) |-> HeadId(d.heads[CHOOSE x \in idx : Cardinality({y \in idx : y < x}) = n - 1])] \o (IF d.table THEN <<TableId(d)>> ELSE <<>>)
 
 \* ---- generation -----------------------------------------------------------------------------------------------------
 VARIABLE doc
 Pick(S) == IF Sim THEN {RandomElement(S)} ELSE S
 Events == {[a |-> "call", k |-> k, l |-> l] : k \in Kinds, l \in Labels} \cup {[a |-> "inline", k |-> "fn", l |-> l] : l \in {"a", "b"}} \cup {[a |-> "notcited", k |-> "cn", l |-> l] : l \in Labels}
-Init == doc \in {[ev |-> <<>>, heads |-> <<>>, toc |-> t, tocr |-> tr, table |-> tb, nest |-> n, nested |-> ns, base |-> b] :
-                    t \in Pick(BOOLEAN), tr \in Pick(BOOLEAN), tb \in Pick(BOOLEAN), n \in Pick({"plain", "list", "quote"}), ns \in Pick(BOOLEAN), b \in Pick({0, 2})}
+Init == doc \in {[ev |-> <<>>, heads |-> <<>>, toc |-> t, tocr |-> tr, table |-> tb, nest |-> n, nested |-> ns, base |-> b, capsp |-> cs] :
+                    t \in Pick(BOOLEAN), tr \in Pick(BOOLEAN), tb \in Pick(BOOLEAN), n \in Pick({"plain", "list", "quote"}), ns \in Pick(BOOLEAN), b \in Pick({0, 2}), cs \in Pick(BOOLEAN)}
         /\ (doc.base > 0 => ~doc.tocr)            \* which levels a restricted TOC means under a shifted base level is not prescribed
 AddEv == Len(doc.ev) < MaxEv /\ doc.heads = <<>> /\ \E e \in Pick(Events) :
             /\ (e.a = "inline" => \A i \in 1 .. Len(doc.ev) : ~(doc.ev[i].a = "inline" /\ doc.ev[i].l = e.l))        \* inline note texts are distinct
